@@ -292,6 +292,8 @@ def search_table(ex, paths):
             out["source"].append(src)
         has_item = bool(items) or any("item@" in S.fstr(c) for c, o in p.conds)
         ic = [(c, o) for c, o in p.conds if "item@" in S.fstr(c) and not (c[0] == "isvar" and "Iterator>::next" in S.fstr(c))]
+        # `a != b` is false  ==  `a == b` is true
+        ic = [((("binop", "Eq", c[2], c[3]), (not o)) if c[0] == "binop" and c[1] == "Ne" and isinstance(o, bool) else (c, o)) for c, o in ic]
         if p.end is None:
             continue
         if p.end[0] == "cut":
